@@ -24,10 +24,10 @@ from vlib import core
 from vlib.core import strlit, listlit, zlit, boollit, optlit
 from translate import c14_facts
 
-HEADER = """From SF Require Import Base.Val C14.Writer C14.Views C14.WriterCheck.
+HEADER = """From SF Require Import Base.Val C14.Writer C14.Views C14.Builder C14.WriterCheck.
 From Gen Require Import C14Facts.
 Open Scope string_scope.
-Definition check := WriterCheck.check gen_cfg.
+Definition check := WriterCheck.check gen_cfg gen_bcfg.
 """
 HEADER_SPEC = """From SF Require Import Base.Val C14.Writer C14.WriterCheck.
 Open Scope string_scope.
@@ -131,8 +131,39 @@ def xop_coq(o) -> str:
     return f"(XOp {op_coq(o)})"
 
 
+def calls_coq(calls) -> str:
+    out = []
+    for c in calls:
+        if c == "byName":
+            out.append("BByName")
+        elif c[0] == "mode":
+            out.append(f"(BMode {mode_coq(c[1])})")
+        elif c[0] == "format":
+            out.append(f"(BFormat {strlit(c[1])})")
+        else:
+            raise ValueError(c)
+    return listlit(out)
+
+
+def calls_str(calls) -> str:
+    return "".join(".byName" if c == "byName" else f".{c[0]}({c[1]!r})" for c in calls)
+
+
+def yop_coq(o) -> str:
+    """writes built by a sequence of builder calls (C14/Builder.v):
+    ["binsert", calls, n, frame]  ["bsave", calls, n, arg, frame]  ["bwpath", calls, key, fmt, arg, frame]"""
+    k = o[0]
+    if k == "binsert":
+        return f"(YInsert {calls_coq(o[1])} {strlit(o[2])} {df_coq(o[3])})"
+    if k == "bsave":
+        return f"(YSave {calls_coq(o[1])} {strlit(o[2])} {mode_coq(o[3])} {df_coq(o[4])})"
+    if k == "bwpath":
+        return f"(YWrite {calls_coq(o[1])} {strlit(o[2])} {FMT_COQ[o[3]]} {mode_coq(o[4])} {df_coq(o[5])})"
+    return f"(YOp {xop_coq(o)})"
+
+
 def xcase_coq(ops, obs, snaps) -> str:
-    return (f"(mkXCase {listlit([xop_coq(o) for o in ops])} {listlit([obs_coq(x) for x in obs])} "
+    return (f"(mkYCase {listlit([yop_coq(o) for o in ops])} {listlit([obs_coq(x) for x in obs])} "
             f"{listlit([snap_coq(s) for s in snaps])})")
 
 
@@ -151,6 +182,12 @@ def op_str(o) -> str:
         return f"if not catalog.tableExists({o[1]!r}): df.write.saveAsTable({o[1]!r})  df={fr(o[2])}"
     if k == "tempview":
         return f"df.createOrReplaceTempView({o[1]!r})  df={fr(o[2])}"
+    if k == "binsert":
+        return f"df.write{calls_str(o[1])}.insertInto({o[2]!r})  df={fr(o[3])}"
+    if k == "bsave":
+        return f"df.write{calls_str(o[1])}.saveAsTable({o[2]!r}{'' if o[3] is None else ', mode=' + repr(o[3])})  df={fr(o[4])}"
+    if k == "bwpath":
+        return f"df.write{calls_str(o[1])}.{o[3]}(<{o[2]}>{'' if o[4] is None else ', mode=' + repr(o[4])})  df={fr(o[5])}"
     if k == "foreign":
         return f"conn.execute('CREATE SCHEMA IF NOT EXISTS staging; CREATE OR REPLACE TABLE staging.{o[1]} ...')  rows={fr(o[2])}"
     if k == "insert":
@@ -285,11 +322,21 @@ class Impl:
     def step(self, o):
         k = o[0]
         try:
-            if k in ("save", "insert", "wpath", "gsave"):
+            if k in ("save", "insert", "wpath", "gsave", "binsert", "bsave", "bwpath"):
                 fr = o[-1]
                 w = self.df(fr).write
                 try:
-                    if k == "gsave":
+                    if k in ("binsert", "bsave", "bwpath"):
+                        for c in o[1]:          # the builder calls, in the order given
+                            w = w.byName if c == "byName" else getattr(w, c[0])(c[1])
+                        if k == "binsert":
+                            w.insertInto(o[2])
+                        elif k == "bsave":
+                            w.saveAsTable(o[2]) if o[3] is None else w.saveAsTable(o[2], mode=o[3])
+                        else:
+                            p = self.path(o[2], o[3])
+                            getattr(w, o[3])(p) if o[4] is None else getattr(w, o[3])(p, mode=o[4])
+                    elif k == "gsave":
                         if not self.s.catalog.tableExists(o[1]):
                             w.saveAsTable(o[1])
                     elif k == "save":
@@ -415,6 +462,11 @@ def run_history(ops, scratch):
         for o in ops:                      # register every path of the history first: snapshots report all of them
             if o[0] in ("wpath", "rpath"):
                 im.path(o[1], o[2])
+            elif o[0] == "bwpath":
+                im.path(o[2], o[3])
+            elif o[0] in ("binsert", "bsave"):
+                if o[2] not in im.names:
+                    im.names.append(o[2])
             elif o[0] != "list" and o[1] not in im.names:
                 im.names.append(o[1])
         obs, snaps = [], []
@@ -655,6 +707,40 @@ def namesake_histories(tier):
     return out
 
 
+def builder_histories(tier):
+    """the writer's builder calls in every order: byName before / after mode() / format(), with a frame whose columns are
+    a permutation of the target's; terminal calls insertInto, saveAsTable (append through .mode() or mode=) and a path
+    write whose mode comes through the builder before / after format()"""
+    import itertools
+    out = []
+    tab, perm, perm2 = FR_AB, FR_BA, frame([("b", "int"), ("a", "int")], [[30, 40]])
+    pools = [["byName"], ["byName", ["mode", "append"]], ["byName", ["format", "parquet"]],
+             ["byName", ["mode", "append"], ["format", "parquet"]], ["byName", ["mode", "error"], ["mode", "append"]]]
+    seqs = []
+    for pool in pools:
+        for p in itertools.permutations(pool):
+            if list(p) not in seqs:
+                seqs.append(list(p))
+    if tier == "quick":
+        seqs = [q for q in seqs if len(q) <= 2] + [q for i, q in enumerate(seqs) if len(q) == 3 and i % 2 == 0]
+    for calls in seqs:
+        for read_first in ((False, True) if len(calls) <= 2 else (False,)):
+            h = [["save", "t", None, None, tab]] + ([["rtable", "t"]] if read_first else [])
+            h += [["binsert", calls, "t", perm], ["rtable", "t"]]
+            has_mode = any(c != "byName" and c[0] == "mode" for c in calls)
+            h += [["bsave", calls, "t", None if has_mode else "append", perm2], ["rtable", "t"], ["cols", "t"]]
+            out.append(h)
+    # the mode set through the builder must reach a path write whatever surrounds it
+    for calls in ([["mode", "overwrite"], ["format", "csv"]], [["format", "csv"], ["mode", "overwrite"]],
+                  ["byName", ["mode", "overwrite"]], [["mode", "overwrite"], "byName"], [["mode", "ignore"], ["format", "json"], "byName"]):
+        out.append([["wpath", "p", "parquet", None, None, FR_AS], ["bwpath", calls, "p", "parquet", None, FR_AS2], ["rpath", "p", "parquet"]])
+    # saveAsTable in the other modes on a byName writer (created / replaced / refused / ignored as without byName)
+    for m in (None, "error", "ignore", "overwrite"):
+        for calls in (["byName", ["mode", m]], [["mode", m], "byName"]):
+            out.append([["bsave", calls, "t", None, tab], ["bsave", calls, "t", None, perm], ["rtable", "t"], ["exists", "t"]])
+    return out
+
+
 def random_history(rnd, max_writes=5):
     tables = ["t", "u"]
     paths = {"p": rnd.choice(FMTS), "q": rnd.choice(FMTS)}
@@ -870,6 +956,7 @@ def make_histories(ctx):
     hs = [("corpus", h) for h in corpus()]
     hs += [("catalog", h) for h in catalog_histories(ctx.tier)]
     hs += [("namesake", h) for h in namesake_histories(ctx.tier)]
+    hs += [("builder", h) for h in builder_histories(ctx.tier)]
     hs += [("pairs", h) for h in mode_pair_histories(ctx.tier)]
     hs += [("fault", h) for h in fault_histories(rnd, ctx.tier)]
     n_rand = 90 if ctx.tier == "quick" else 2500
@@ -929,7 +1016,7 @@ def run(ctx: core.Ctx):
         ctx.broken("T1:c14_facts", f"{type(ex).__name__}: {ex}")
         t1_ok = False
     # ---- proofs
-    deps = ["Base/Val.v", "C14/Writer.v", "C14/WriterProof.v", "C14/Views.v", "C14/WriterCheck.v"]
+    deps = ["Base/Val.v", "C14/Writer.v", "C14/WriterProof.v", "C14/Views.v", "C14/Builder.v", "C14/WriterCheck.v"]
     proved = False
     if t1_ok:
         proved = ctx.prove([ctx.build + "/gen/C14Facts.v", core.COQ + "/props/C14.v"], dep_theories=deps)
@@ -1014,7 +1101,7 @@ def run(ctx: core.Ctx):
             obs, snaps, exc, notes = done[idx]
             runs.append({"src": src, "ops": ops, "obs": obs, "snaps": snaps, "exc": exc, "notes": notes})
             kinds_hist(ops, hist_kind)
-            nw = sum(1 for o in ops if o[0] in ("save", "insert", "wpath", "gsave", "tempview"))
+            nw = sum(1 for o in ops if o[0] in ("save", "insert", "wpath", "gsave", "tempview", "binsert", "bsave", "bwpath"))
             hist_len[nw] = hist_len.get(nw, 0) + 1
             hist_src[src] = hist_src.get(src, 0) + 1
             for o in ops:
@@ -1086,9 +1173,9 @@ def run(ctx: core.Ctx):
                                    "TEMPORARY VIEWs that df.schema created must not appear"})
         dev_count[SIG_TEMPVIEWS] = len(noted)
     for sig, cand in sorted(dev_best.items()):
-        term = listlit([xop_coq(o) for o in cand["ops"]])
-        spec_says = ctx.coq_eval(HEADER, f"snd (x_s_run (s_init, []) {term})")
-        model_says = ctx.coq_eval(HEADER, f"snd (x_m_run gen_cfg (residue_of gen_cfg) (m_init, []) {term})")
+        term = listlit([yop_coq(o) for o in cand["ops"]])
+        spec_says = ctx.coq_eval(HEADER, f"snd (y_s_run (s_init, []) {term})")
+        model_says = ctx.coq_eval(HEADER, f"snd (y_m_run gen_cfg gen_bcfg (residue_of gen_cfg) (m_init, []) {term})")
         ctx.deviation(sig, f"{op_str(cand['ops'][-1])}: implementation and spec part on the last step "
                            f"({dev_count[sig]} histories of this run with this shape)",
                       {"history": [op_str(o) for o in cand["ops"]], "ops_json": cand["ops"],
